@@ -468,3 +468,124 @@ fn twin_dec_hdr_false() {
     assert!(false, "false twin: this assertion must be reported as violated");
 }
 
+
+// ---- N4 complement (features gzip,deflate,zstd): with a negotiated encoding, flag 1 selects it and flag 0 selects identity ----
+/// the real decompressors (flate2, zstd) cannot be executed symbolically; in this harness no payload byte is buffered and the
+/// declared length is > 0, so reaching decompression at all is an error
+#[cfg(all(feature = "gzip", feature = "deflate", feature = "zstd"))]
+fn decompress_unreachable(_s: CompressionSettings, _i: &mut BytesMut, _o: &mut BytesMut, _len: usize) -> Result<(), std::io::Error> {
+    assert!(false, "C01: decompression started before the payload arrived");
+    kani::assume(false);
+    Ok(())
+}
+
+#[cfg(all(feature = "gzip", feature = "deflate", feature = "zstd"))]
+#[kani::proof]
+#[kani::unwind(10)]
+#[kani::stub(alloc::fmt::format, fmt_stub)]
+#[kani::stub(crate::codec::compression::decompress, decompress_unreachable)]
+fn dec_hdr_negotiated() {
+    let bytes: [u8; 5] = kani::any();
+    kani::assume(bytes[1] != 0 || bytes[2] != 0 || bytes[3] != 0 || bytes[4] != 0); // declared length > 0
+    let limit: Option<usize> = kani::any();
+    let which: u8 = kani::any();
+    let enc = match which % 3 {
+        0 => CompressionEncoding::Gzip,
+        1 => CompressionEncoding::Deflate,
+        _ => CompressionEncoding::Zstd,
+    };
+    let mut inner = mk_inner(Body::empty(), any_direction(), limit);
+    inner.encoding = Some(enc);
+    inner.buf.put_slice(&bytes);
+    let (flag, declared) = ref_frame_header(&bytes).unwrap();
+    let lim = match limit {
+        Some(l) => l,
+        None => DEFAULT_LIMIT,
+    };
+    let r = inner.decode_chunk(BufferSettings::default());
+    let ok = r.is_ok();
+    let code = r.as_ref().err().map(|s| s.code());
+    core::mem::forget(r);
+    if flag > 1 {
+        assert!(code == Some(Code::Internal), "C07: illegal flag must be INTERNAL");
+    } else if declared > lim {
+        assert!(code == Some(Code::OutOfRange), "C06: the limit applies to the on-the-wire (compressed) length too");
+    } else {
+        kani::cover!(flag == 1, "compressed frame accepted");
+        kani::cover!(flag == 0, "identity frame accepted");
+        // declared may be 0: then the (empty) message is complete and decompression is attempted; only the header step is judged here
+        if declared > 0 {
+            assert!(ok, "C05: a frame of a negotiated encoding was refused");
+            match inner.state {
+                State::ReadBody { len, compression } => {
+                    assert!(len == declared);
+                    assert!(compression == if flag == 1 { Some(enc) } else { None },
+                            "C05: the compressed flag does not select exactly the negotiated encoding");
+                }
+                _ => assert!(false),
+            }
+        }
+    }
+    core::mem::forget(inner);
+}
+
+// ---- X1 decode side: the body phase hands exactly the frame's payload to the (abstract) decompressor and the decoder sees its output
+#[cfg(all(feature = "gzip", feature = "deflate", feature = "zstd"))]
+static mut DECOMP_ENC: u8 = 0;
+#[cfg(all(feature = "gzip", feature = "deflate", feature = "zstd"))]
+fn decompress_abstract(s: CompressionSettings, input: &mut BytesMut, out: &mut BytesMut, len: usize) -> Result<(), std::io::Error> {
+    unsafe {
+        DECOMP_ENC = match s.encoding {
+            CompressionEncoding::Gzip => 1,
+            CompressionEncoding::Deflate => 2,
+            CompressionEncoding::Zstd => 3,
+        };
+    }
+    // inverse of the abstract compressor: drop the tag byte
+    if len > 0 {
+        out.put_slice(&input[1..len]);
+    }
+    input.advance(len);
+    Ok(())
+}
+
+#[cfg(all(feature = "gzip", feature = "deflate", feature = "zstd"))]
+#[kani::proof]
+#[kani::unwind(8)]
+#[kani::stub(alloc::fmt::format, fmt_stub)]
+#[kani::stub(crate::codec::compression::decompress, decompress_abstract)]
+fn dec_body_compressed() {
+    let bytes: [u8; 5] = kani::any();
+    let len: usize = kani::any();
+    kani::assume(len >= 1 && len <= 5);
+    let which: u8 = kani::any();
+    let (enc, id) = match which % 3 {
+        0 => (CompressionEncoding::Gzip, 1u8),
+        1 => (CompressionEncoding::Deflate, 2u8),
+        _ => (CompressionEncoding::Zstd, 3u8),
+    };
+    let mut inner = mk_inner(Body::empty(), any_direction(), kani::any());
+    inner.encoding = Some(enc);
+    inner.buf.put_slice(&bytes);
+    inner.state = State::ReadBody { compression: Some(enc), len };
+    let r = inner.decode_chunk(BufferSettings::default());
+    match &r {
+        Ok(Some(db)) => {
+            kani::cover!(true, "decompressed message");
+            assert!(unsafe { DECOMP_ENC } == id, "C05: the message was decompressed with a different encoding than negotiated");
+            assert!(db.remaining() == len - 1, "C01: the decoder does not see exactly the decompressor's output");
+            let c = db.chunk();
+            let mut i = 0;
+            while i < 4 {
+                if i + 1 < len {
+                    assert!(c[i] == bytes[i + 1], "C01: decompressed payload differs");
+                }
+                i += 1;
+            }
+        }
+        _ => assert!(false, "C01: a complete compressed frame was not delivered"),
+    }
+    core::mem::forget(r);
+    assert!(inner.buf.len() == 5 - len, "C01: exactly the frame's payload must be consumed from the stream");
+    core::mem::forget(inner);
+}
